@@ -415,7 +415,7 @@ def generic_replay(prop, path):
         rc, lines, err = L.run_real(exe, d["argv"], dg)
         print("--- real listener (rc=%d)\n%s" % (rc, "\n".join(lines)))
         bad = rc != 0 or not lines or lines[-1] != "blocked"
-        if which != "crf":
+        if which != "crf" or "listener" in d["argv"]:
             modeargs = {"u": "u" if "-u" in d["argv"] else "r", "f": "f" if "--fd" in d["argv"] else "c"}
             per = L.model_outputs(which, modeargs, dg)
             exp_can, exp_out = L.expected_from_model(which, per)
